@@ -128,6 +128,44 @@ func evalNum(t *Term, env map[string]float64) (float64, bool) {
 	return 0, false
 }
 
+// forgetsOnly: the write removes remembered positions and records none: delete/clear, or a fresh map that is empty (made
+// here and used for nothing but this assignment).
+func forgetsOnly(w writeSite) bool {
+	fresh := func(v ssa.Value) bool {
+		mk, ok := v.(*ssa.MakeMap)
+		if !ok || mk.Referrers() == nil {
+			return false
+		}
+		for _, r := range *mk.Referrers() {
+			if _, isDbg := r.(*ssa.DebugRef); isDbg || r == w.Instr {
+				continue
+			}
+			return false
+		}
+		return true
+	}
+	switch x := w.Instr.(type) {
+	case *ssa.Call:
+		return w.What == "delete" || w.What == "clear"
+	case *ssa.MapUpdate:
+		return fresh(x.Value)
+	case *ssa.Store:
+		return fresh(x.Val)
+	}
+	return false
+}
+
+// repetitionRules: R6.4 / R6.17 alone (imported by C08: the first report of a key-emulating axis must reach the thresholds).
+func repetitionRules(c *Ctx) {
+	dv := newDev(c, "R6.0")
+	if !dv.ok || !dv.need("R6.0", []string{"handleABSEvent"}, []string{"lastAnalogValue"}) {
+		return
+	}
+	if paths, err := absPaths(c, dv); err == nil {
+		ruleDedupeKeying(c, dv, paths)
+	}
+}
+
 func checkC06(c *Ctx) {
 	dv := newDev(c, "R6.0")
 	if !dv.ok || !dv.need("R6.0", []string{"handleABSEvent", "NewDevice"}, []string{"lastAnalogValue", "outputEvents", "config"}) {
@@ -148,9 +186,9 @@ func checkC06(c *Ctx) {
 	if pf := newParserFacts(c); pf.err == nil {
 		ruleFieldCorrespondenceFor(c, pf, tomlLeaves(c), "R6.6", func(dest string) bool { return dest == "Analog.Bidirectional" })
 	}
-	// R6.16 the memory of the duplicate suppression is written by the axis handler only (and created in NewDevice): an entry
-	// removed elsewhere (a mapping action "forgetting" the positions) reads as 0, the shaped value of every position inside the
-	// deadzone - the return to rest is then swallowed as a repetition and the receiver keeps the last deflection
+	// R6.16 positions are recorded as transmitted by the axis handler only (the memory is created in NewDevice); elsewhere
+	// they may at most be forgotten, which R6.17 makes harmless (before fix F-08g a missing entry read as the position 0.0 and
+	// the next return to rest was swallowed as a repetition)
 	if f := dv.fields["lastAnalogValue"]; f != nil {
 		n := 0
 		for _, w := range c.P.writersOfField(f) {
@@ -159,8 +197,11 @@ func checkC06(c *Ctx) {
 			key := "write(Device.lastAnalogValue)@" + shortFn(w.Fn)
 			if sameAnchorName(name, "handleABSEvent") || sameAnchorName(name, "NewDevice") {
 				c.OK("R6.16", key, c.P.Pos(w.Instr.Pos()), "allowed writer")
+			} else if forgetsOnly(w) {
+				// since R6.17 a missing entry is "nothing reported yet", not the position 0.0: forgetting is harmless
+				c.OK("R6.16", key, c.P.Pos(w.Instr.Pos()), "only forgets positions ("+w.What+"); a missing entry is not taken for a position (R6.17)")
 			} else {
-				c.Bad("R6.16", key, c.P.Pos(w.Instr.Pos()), "the remembered axis positions are written outside the axis handler: a missing entry reads as the rest value 0, so the next return to rest is suppressed as a repetition and the receiver keeps the stale value")
+				c.Bad("R6.16", key, c.P.Pos(w.Instr.Pos()), "a position is recorded as transmitted outside the axis handler: the next report of that position is suppressed as a repetition although the handler never sent it")
 			}
 		}
 		if n == 0 {
@@ -175,11 +216,12 @@ func checkC06(c *Ctx) {
 	ruleRescaleExact(c, dv, "R6.10")
 	ruleShiftOnlyUnsigned(c, dv, "R6.11")
 	c.importRules(checkC07, []string{"R7.9"}, "R6.15") // the rest value is transmitted for a resting axis also after CC learning: a swallowed position is not remembered as sent
-	c.importRules(checkC07, []string{"R7.1"}, "R6.9") // every position that passes the gates is transmitted: each controller path sends the active controller (no second, value-based suppression)
+	c.importRules(checkC07, []string{"R7.1"}, "R6.9")  // every position that passes the gates is transmitted: each controller path sends the active controller (no second, value-based suppression)
 	c.MinCount("R6.1", 2)
 	c.MinCount("R6.2", 2)
 	c.MinCount("R6.3", 6)
 	c.MinCount("R6.4", 1)
+	c.MinCount("R6.17", 1)
 	c.DecidedClause("the deadzone is taken from the axis-specific table, then the sub-handler default, then the global default, in this order; positions inside the deadzone are assigned the literal rest value 0 (not a computed quantity); the final scaling stage is the right map: the Control Change value is trunc(127*a) with a = |v|, (v+1)/2, |2v-1| or v for the four signed x bidirectional cases (end points 0 -> 0, 1 -> 127) and the pitch-bend encoder maps -1 -> 0, 0 -> 8192, +1 -> 16383 (evaluated abstractly on the constructor's return term); duplicate suppression compares and stores under the same [sub-handler][code] key")
 	c.UndecidedClause("accuracy within one step, monotonicity and exact end stops THROUGH the floating-point deadzone rescale (v-dz)*(1/(1-dz)): they depend on IEEE-754 rounding at particular positions; 16-bit and hat sampling; the learning gate and side logic are C07")
 }
@@ -502,8 +544,8 @@ func rulePitchBendArgument(c *Ctx, dv *dev, paths []*Path) {
 func ruleDedupeKeying(c *Ctx, dv *dev, paths []*Path) {
 	fn := dv.fn["handleABSEvent"]
 	pos := c.P.Pos(fn.Pos())
-	bad := ""
-	n := 0
+	bad, badEq := "", ""
+	n, nEq := 0, 0
 	for _, p := range paths {
 		var set *Effect
 		for i := range p.Effects {
@@ -512,7 +554,7 @@ func ruleDedupeKeying(c *Ctx, dv *dev, paths []*Path) {
 				set = e
 			}
 		}
-		var cmp *Term
+		var cmp, cmpEq *Term
 		for _, a := range p.Atoms {
 			op, x, y, ok := normAtom(a)
 			if !ok || (op != "==" && op != "!=") {
@@ -521,6 +563,9 @@ func ruleDedupeKeying(c *Ctx, dv *dev, paths []*Path) {
 			for _, t := range []*Term{x, y} {
 				if t.Op == "lookup" && t.Args[0].Op == "lookup" && dv.isFieldLoad(t.Args[0].Args[0], "lastAnalogValue") {
 					cmp = t
+					if op == "==" {
+						cmpEq = t
+					}
 					other := y
 					if t == y {
 						other = x
@@ -531,18 +576,66 @@ func ruleDedupeKeying(c *Ctx, dv *dev, paths []*Path) {
 				}
 			}
 		}
+		// R6.17 a position is a repetition only of a position that was recorded: where the path finds the new value equal to the
+		// remembered one, it has also found the entry present (a missing entry reads as 0.0, the shaped value of the
+		// negative end stop of an unsigned stick and of every resting position)
+		if cmpEq != nil {
+			nEq++
+			present := false
+			for _, a := range p.Atoms {
+				t, taken := a.Cond, a.Taken
+				for t.Op == "unop" && t.Aux == "!" {
+					t, taken = t.Args[0], !taken
+				}
+				if !taken || len(t.Args) < 2 {
+					continue
+				}
+				// the entry itself, or a presence table kept beside it, under the same axis key
+				if !(t.Op == "lookupok" || (t.Op == "lookup" && isBoolType(t.Type))) || t.Args[1].String() != cmpEq.Args[1].String() {
+					continue
+				}
+				root := t.Args[0]
+				if root.Op == "lookup" {
+					root = root.Args[0]
+				}
+				for name := range dv.fields {
+					if name != "config" && name != "InputDevice" && dv.isFieldLoad(root, name) {
+						present = true
+					}
+				}
+			}
+			if !present {
+				badEq = "a position equal to the remembered one is dropped as a repetition although no position of the axis has been recorded yet (the missing entry reads as 0.0): the first report of an unsigned stick at its negative stop, or of a flipped axis at rest, is lost"
+			}
+		}
 		if set == nil {
 			continue
 		}
 		n++
 		if cmp == nil {
-			bad = "last value stored without having been compared"
+			// an axis that has not reported yet has nothing to be compared with: the path tested the entry's presence under
+			// the same key and found none
+			absent := false
+			for _, a := range p.Atoms {
+				t, taken := a.Cond, a.Taken
+				for t.Op == "unop" && t.Aux == "!" {
+					t, taken = t.Args[0], !taken
+				}
+				if t.Op == "lookupok" && !taken && t.Args[0].Op == "lookup" && dv.isFieldLoad(t.Args[0].Args[0], "lastAnalogValue") &&
+					t.Args[0].Args[1].String() == set.Args[0].Args[1].String() && t.Args[1].String() == set.Args[1].String() {
+					absent = true
+				}
+			}
+			if !absent {
+				bad = "last value stored without having been compared"
+			}
 			continue
 		}
 		if cmp.Args[0].Args[1].String() != set.Args[0].Args[1].String() || cmp.Args[1].String() != set.Args[1].String() {
 			bad = fmt.Sprintf("compare key [%s][%s] differs from store key [%s][%s]", cmp.Args[0].Args[1], cmp.Args[1], set.Args[0].Args[1], set.Args[1])
 		}
 	}
+	c.Check(badEq == "" && nEq > 0, "R6.17", "device.handleABSEvent/repetition-only-of-a-recorded-position", pos, fmt.Sprintf("%d path(s) drop a repeated position, each after finding the axis' entry present", nEq), badEq+ifs(nEq == 0, "no path compares the new position with the remembered one"))
 	c.Check(bad == "" && n > 0, "R6.4", "device.handleABSEvent/duplicate-suppression-keying", pos, fmt.Sprintf("%d path(s): compare and store use the same [sub-handler][code] key and the same value", n), bad)
 }
 
